@@ -20,7 +20,8 @@ BUILD = os.path.join(VERIF, ".build")
 SYNC_PKGS = ["internal/context", "internal/sbi/processor", "internal/abmf", "internal/rating",
              "internal/cgf", "pkg/abmf", "pkg/rf", "internal/sbi"]
 OS_PKGS = ["cdr/cdrFile"]
-FINE_PKGS = ["internal/sbi/processor", "internal/context", "internal/abmf", "internal/rating"]
+# packages whose statements get a scheduling point each (vs.Pt, live only in fine mode)
+FINE_PKGS = ["internal/sbi/processor", "internal/context", "internal/util", "internal/abmf", "internal/rating", "pkg/abmf", "pkg/rf"]
 
 
 def sh(*a):
@@ -154,6 +155,22 @@ def make_overlay(repo, fine=False, real=False):
                     os.makedirs(os.path.dirname(dst), exist_ok=True)
                     open(dst, "w").write(new)
                     repl[f] = dst
+    if not real:
+        # statement-level scheduling points: instrument the (possibly already rewritten) file with tools/finepts
+        tool = os.path.join(BUILD, "bin", "finepts")
+        if not os.path.exists(tool) or os.path.getmtime(tool) < os.path.getmtime(os.path.join(VERIF, "tools/finepts/main.go")):
+            os.makedirs(os.path.dirname(tool), exist_ok=True)
+            subprocess.check_call(["go", "build", "-o", tool, "."], cwd=os.path.join(VERIF, "tools/finepts"),
+                                  env=dict(os.environ, GOFLAGS="-mod=mod", GOPROXY="off", GOTOOLCHAIN="local"))
+        for pkg in FINE_PKGS:
+            for f in go_files(repo, pkg):
+                src = repl.get(f, f)
+                dst = os.path.join(gen, pkg, os.path.basename(f))
+                os.makedirs(os.path.dirname(dst), exist_ok=True)
+                tmp = dst + ".fine"
+                subprocess.check_call([tool, src, tmp, os.path.basename(f)])
+                os.replace(tmp, dst)
+                repl[f] = dst
     # harness package and export shims
     for f in sorted(glob.glob(os.path.join(VERIF, "harness", "*.go"))):
         repl[os.path.join(repo, "internal/zzverif", os.path.basename(f))] = f
